@@ -404,10 +404,14 @@ def hashseed_sweep(ctx):
         for s in seeds[1:]:
             if results[s] != ref:
                 keys = sorted(k for k in set(ref) | set(results[s]) if ref.get(k) != results[s].get(k))
-                idx = int(keys[0].split('/')[0])
+                first = keys[0].split('/')[0]
+                if first.startswith('x'):
+                    culprit = {'text': EXTRA_TEXTS[int(first[1:])]}
+                else:
+                    culprit = {'mset': corpus[int(first)]}
                 ctx.failures.append({'facet': 'hash-seed-dependence',
                                      'detail': 'PYTHONHASHSEED=%d vs %d differ in %d outputs, first: %r' % (seeds[0], s, len(keys), keys[:4]),
-                                     'case': {'hashseed': [seeds[0], s], 'mset': corpus[idx], 'keys': keys[:10]}, 'extra': None,
+                                     'case': dict(culprit, hashseed=[seeds[0], s], keys=keys[:10]), 'extra': None,
                                      'search': 'hashseed'})
                 break
         ctx.samples.append({'facet': 'hashseed', 'case': {'seeds': seeds, 'sets': len(corpus), 'digests': dict(list(ref.items())[:4])}})
